@@ -162,7 +162,7 @@ IDX_CHUNKS = len(E2E_SPECS) - 1
 for _r, _c, _w in (("1/m", 1, 60 * 10 ** 9), ("21/20s", 21, 20 * 10 ** 9)):
     E2E_SPECS.append({"cmd": "arp (slow)", "rate_str": _r, "rate": _c, "per": _w, "iface": "v1", "match": "arp",
                       "args": ["arp", "-i", "v0", "10.77.0.0/26"], "kill_after": 16.0, "idle": "60s", "total": "16500ms",
-                      "min_probes": 2})
+                      "min_probes": 1})
 IDX_SLOW = [len(E2E_SPECS) - 2, len(E2E_SPECS) - 1]
 IDX_FAST = list(range(IDX_CHUNKS + 1))
 
